@@ -10,14 +10,15 @@ _FloatQuadruple = Tuple[float, float, float, float]
 def safe_int(o: Any) -> Optional[int]:
     try:
         return int(o)
-    except (TypeError, ValueError):
+    except (TypeError, ValueError, OverflowError):
         return None
 
 
 def safe_float(o: Any) -> Optional[float]:
     try:
         return float(o)
-    except (TypeError, ValueError):
+    except (TypeError, ValueError, OverflowError):
+        # OverflowError: an integer of hundreds of digits
         return None
 
 
